@@ -87,6 +87,7 @@ func flight0Parse(
 		return 0, &alert.Alert{Level: alert.Fatal, Description: alert.InsufficientSecurity}, dtlserrors.ErrCipherSuiteNoIntersection //nolint:lll
 	}
 
+	state.RemoteSignatureSchemes = nil
 	for _, val := range clientHello.Extensions {
 		switch ext := val.(type) {
 		case *extension.SupportedGroups:
@@ -108,6 +109,9 @@ func flight0Parse(
 			state.RemoteSupportsRenegotiation = true
 		case *extension.ALPNOffer:
 			state.PeerSupportedProtocols = slices.Clone(ext.Protocols)
+		case *extension.SignatureAlgorithms:
+			// The ServerKeyExchange signature must use a pair the client listed. RFC 5246 Section 7.4.3
+			state.RemoteSignatureSchemes = dtlsflight.SignatureSchemes(ext.Schemes)
 		case *extension.CertificateSignatureAlgorithms:
 			// Store the client's certificate signature schemes for later validation
 			state.RemoteCertSignatureSchemes = dtlsflight.SignatureSchemes(ext.Schemes)
